@@ -287,10 +287,12 @@ def _client_proto(chunks, exc=None):
             def write(self, b): pass
             def close(self): self.closed = True
             def get_extra_info(self, *a, **k): return None
-        p.connection_made(T())
+        tr = T(); p.connection_made(tr)
         err = None
         try:
-            for c in chunks: p.data_received(c)
+            for c in chunks:
+                if tr.closed: break          # a closed transport delivers no further reads
+                p.data_received(c)
             p.connection_lost(exc)
         except Exception as e:
             err = e
@@ -498,6 +500,13 @@ def C11_request_sent_before_pin_check():
         r = asyncio.run(go())
         return r != "changed" or any(t.written for t in seen)
     finally: shutil.rmtree(d)
+
+@witness
+def C13_trailing_bytes_after_non2x_depend_on_segmentation():
+    tail = b"x" * (10 * 1024 * 1024 + 1)
+    one = _client_proto([b"51 Not found\r\n" + tail])
+    two = _client_proto([b"51 Not found\r\n", tail])
+    return one[0] != two[0]
 
 # MAIN
 if __name__ == "__main__":
